@@ -266,6 +266,10 @@ class Machine(object):
                 self.res.unknown_addr = getattr(self.res, "unknown_addr", 0) + 1
             elif rw:
                 self.record(i, a, size or 1, rw)
+        # constants fetched through a sliding (unaligned) window into the object's constant tables, and their use
+        # as a byte mask: recorded for the rules (C02 R02.11), no influence on the interpretation
+        if op[:1] in "VPMA" or op.startswith(("MOVDQ", "MOVUP", "MOVAP")):
+            self._window_consts(i, op, a, size)
         gdefs = [d for d in list(i.explicit_defs()) + list(i.idefs) if d in PARENT]
         wflags = "EFLAGS" in i.idefs or "EFLAGS" in i.explicit_defs()
         # ---- handled forms
@@ -368,6 +372,8 @@ class Machine(object):
                     fl = _flags_logic(res, w)
             if base in ("CMP", "TEST"):
                 self.flags = fl
+                if base == "CMP" and fl is None and x is None and isinstance(y, int) and form.startswith("ri"):
+                    self.last_cmp = (i, y & _m(w), w)
                 return
             if dreg:
                 self.put(dreg, res)
@@ -511,6 +517,36 @@ class Machine(object):
         if i.writes_mem_operand() and i.mem >= 0:
             self.store(a, size or 8, None)
 
+    def _window_consts(self, i, op, a, size):
+        import re as _re
+        vc = getattr(self, "vconst", None)
+        if vc is None:
+            vc = self.vconst = {}
+        vregs = [o[1] for o in i.ops if o[0] == "r" and o[1] and _re.match(r"^[XYZ]MM\d+$", o[1])]
+        if not vregs:
+            return
+        num = lambda r: int(_re.search(r"\d+", r).group(0))
+        memc = None
+        if i.mem >= 0 and i.reads_mem_operand() and a is not None and a[0] == "p" and isinstance(a[1], str) and a[1].startswith("data:") and size == 16 and a[2] % 16:
+            b = self.f.obj.initial_bytes(int(a[1][5:]), a[2], 16)
+            if b is not None and len(b) == 16:
+                memc = bytes(b)
+        is_and = _re.match(r"^V?PANDN?(Q|D)?(Z128)?(rr|rm)", op) is not None
+        if is_and:
+            cands_ = ([memc] if memc is not None else []) + [vc[num(r)] for r in vregs[1:] if num(r) in vc] + ([vc[num(vregs[0])]] if not op.startswith("V") and num(vregs[0]) in vc else [])
+            for c in cands_:
+                lst = getattr(self.res, "mask_consts", None)
+                if lst is None:
+                    lst = self.res.mask_consts = []
+                lst.append((i, c))
+        defs = [d for d in i.explicit_defs() if _re.match(r"^[XYZ]MM\d+$", d or "")]
+        for d in defs:
+            vc.pop(num(d), None)
+        if defs and memc is not None and _re.match(r"^V?(MOVDQU|MOVUPS|LDDQU|MOVDQU8|MOVDQU64)", op.replace("Z128", "")) and len(vregs) == 1:
+            vc[num(defs[0])] = memc
+        elif defs and i.mem < 0 and _re.match(r"^V?(MOVDQ[AU]|MOVAPS|MOVUPS)", op) and len(vregs) == 2 and num(vregs[1]) in vc:
+            vc[num(defs[0])] = vc[num(vregs[1])]
+
     def _key(self, blk):
         return (blk, tuple(sorted((k, v) for k, v in self.regs.items() if v is not None)),
                 tuple(sorted(self.flags.items())) if self.flags else None, tuple(sorted(self.stack.items())), self.fr, tuple(sorted((k, v) for k, v in self.kregs.items() if v is not None)))
@@ -522,6 +558,10 @@ class Machine(object):
         self.regs, self.flags, self.stack, self.fr, self.kregs = t
 
     def on_ret(self, i):
+        pass
+
+    def on_fork(self, branch, last_cmp):
+        """A conditional branch whose flags the skeleton does not determine is about to be taken both ways."""
         pass
 
     def run(self, max_forks=256):
@@ -568,6 +608,7 @@ class Machine(object):
                                 break
                             c = cond(i.imm(1), self.flags)
                             if c is None:
+                                self.on_fork(i, getattr(self, "last_cmp", None))
                                 forks += 1
                                 if forks > max_forks:
                                     raise Stop("more than %d branches depend on values the length skeleton does not determine (last: `%s` at %s)" % (max_forks, i.text.strip(), f.obj.line_of(f.sec, i.addr)))
